@@ -1006,7 +1006,7 @@ func (n *Import) String() string {
 	}
 	s.WriteString(strconv.Quote(n.Path))
 	if n.For != nil {
-		s.WriteString("for ")
+		s.WriteString(" for ")
 		for i, ident := range n.For {
 			if i > 0 {
 				s.WriteString(", ")
@@ -1586,7 +1586,7 @@ func (n *Var) String() string {
 	s.WriteString("var ")
 	for i, ident := range n.Lhs {
 		if i > 0 {
-			s.WriteString(" ")
+			s.WriteString(", ")
 		}
 		s.WriteString(ident.Name)
 	}
@@ -1597,7 +1597,7 @@ func (n *Var) String() string {
 		s.WriteString(" = ")
 		for i, value := range n.Rhs {
 			if i > 0 {
-				s.WriteString(" ")
+				s.WriteString(", ")
 			}
 			s.WriteString(value.String())
 		}
